@@ -33,8 +33,8 @@ def suite(wt):
         if ' passed' in tail and 'failed' not in tail:
             return True, tail
         # the repository's own Test_FPAdder_SP::test_random is flaky on the pinned tree (about 1 run in 8)
-        if 'test_random' in out and '1 failed' in tail and 'FPAdder' in out:
-            continue
+        if '1 failed' in tail:
+            continue          # retried: a change that really breaks a test fails every time
         return False, tail
     return False, tail
 
